@@ -28,7 +28,7 @@ ASSUMPTIONS = [
     "float noise moved the raw ratio across the 1.1 clamp edge; the edge at 1.0 is continuous",
 ]
 REQUIRED = {"all": ["salted_objects", "pairs:respell", "pairs:omega_respell", "pairs:reverse", "pairs:invert", "nontrivial_kappa",
-                    "nontrivial_scd", "nontrivial_omega", "every_residue_seen", "longer_than_400", "delta_max_arrangements_as_input"]}
+                    "nontrivial_scd", "nontrivial_omega", "every_residue_seen", "longer_than_400", "delta_max_arrangements_as_input", "permutant_asked_first", "arrangements_with_raw_ratio_above_one"]}
 LP = {"quick": 8, "thorough": 10}
 NRANDOM = {"quick": 400, "thorough": 5000}
 HI = {"quick": 120, "thorough": 300}
@@ -51,8 +51,8 @@ def cases(tier, seed):
         for pat in gen.all_patterns(L):
             yield {"k": "pat", "p": M.pat_str(pat)}
     rng = gen.sub_rng(seed, ID)
-    for z in (5, 9, 13, 17):
-        for few in (1, 2):
+    for z in (0, 1, 2, 3, 5, 9, 13, 17):
+        for few in (1, 2, 3):
             for many in ((10, 16) if tier == "quick" else (10, 14, 16, 20, 28)):
                 pat = [1] * few + [-1] * many + [0] * z
                 rng.shuffle(pat)
@@ -65,6 +65,30 @@ def cases(tier, seed):
                 pat = [1] * few + [-1] * many + [0] * z
                 rng.shuffle(pat)
                 yield {"k": "seq", "s": gen.spell(rng, pat), "o": rng.randrange(1 << 30)}
+    # arrangements whose own delta exceeds the documented family maximum (raw ratio above 1), found with the reference model
+    rngx = gen.sub_rng(0, ID, "above_one")
+    found = 0
+    for j in range(400):
+        few, many, z = rngx.randint(1, 3), rngx.randint(6, 24), rngx.choice([0, 0, 1, 2, 3])
+        pat = [1] * few + [-1] * many + [0] * z
+        if rngx.random() < 0.5:
+            pat = [-q for q in pat]
+        rngx.shuffle(pat)
+        if pat == pat[::-1]:
+            continue
+        p_, n_, z_ = M.counts(pat)
+        m_ = M.dmax_family(p_, n_, z_)[0][0]
+        if m_ > 0 and M.delta_float(pat) / m_ > 1.0:
+            found += 1
+            yield {"k": "seq", "s": gen.spell(rngx, pat), "o": rngx.randrange(1 << 30), "above_one": 1}
+            if found >= (12 if tier == "quick" else 60):
+                break
+    # compositions with one or a few minority charges and 9-23 neutrals (near-ties between candidate arrangements)
+    for comp in [(7, 1, 9), (5, 1, 13), (5, 1, 23), (8, 3, 16), (1, 7, 9), (1, 5, 13), (6, 1, 11), (9, 2, 18)]:
+        pat = [1] * comp[0] + [-1] * comp[1] + [0] * comp[2]
+        for _ in range(2):
+            rngx.shuffle(pat)
+            yield {"k": "seq", "s": gen.spell(rngx, pat), "o": rngx.randrange(1 << 30), "near_tie": 1}
     # the delta-max arrangement of a composition itself (and so its mirror and charge inverse) as input: ratios of exactly 1
     rngo = gen.sub_rng(0, ID, "optimal")
     for j in range(36 if tier == "quick" else 200):
@@ -85,6 +109,12 @@ def getters(S, seq, want, salted=None):
     if salted is not None:
         SALT.salt(S, o, seq, salted[0], salted[1], k=1, cheap=len(seq) > 100)
     out = {}
+    if "deltaMax" in want and len(seq) <= 80 and (len(seq) + seq.count("G") + seq.count("K")) % 3 == 0 or _force_perm[0]:
+        # on a third of the objects the delta-max permutant is asked for before anything else (the same third for a sequence,
+        # a different one for its mirror image / inverse / respelling)
+        pv = o.get_deltaMax(True)
+        _perm_first[0] += 1
+        out["deltaMax(True)[0]"] = pv[0] if isinstance(pv, tuple) else pv
     for g in want:
         if g == "kappa":
             out[g] = o.get_kappa()
@@ -99,6 +129,8 @@ def getters(S, seq, want, salted=None):
     return out
 
 
+_perm_first = [0]
+_force_perm = [False]
 ALL5 = ("kappa", "delta", "deltaMax", "SCD", "Omega")
 PATT4 = ("kappa", "delta", "deltaMax", "SCD")
 
@@ -165,6 +197,10 @@ def judge(case, rep, S):
         heavy = True
     if case.get("optimal"):
         rep.cnt("delta_max_arrangements_as_input")
+    if case.get("above_one"):
+        rep.cnt("arrangements_with_raw_ratio_above_one")
+    if rep.counters.get("permutant_asked_first", 0) < _perm_first[0]:
+        rep.cnt("permutant_asked_first", _perm_first[0] - rep.counters.get("permutant_asked_first", 0))
     _seen.update(base)
     if len(_seen) == 20:
         rep.cnt("every_residue_seen")
@@ -179,7 +215,11 @@ def judge(case, rep, S):
                 rep.viol("%s:delta" % name, "delta changes under %s for a %d-residue chain: %r vs %r" % (name, len(base), a, b),
                          sig={"transform": name, "getter": "delta"})
         return
-    bv = getters(S, base, which)
+    _force_perm[0] = bool(case.get("near_tie")) and "deltaMax" in which
+    try:
+        bv = getters(S, base, which)
+    finally:
+        _force_perm[0] = False
     if bv["kappa"] != -1:
         rep.cnt("nontrivial_kappa")
     if bv.get("SCD", 0) != 0:
